@@ -156,6 +156,10 @@ func implFor(line string) string {
 		return common.Hex(q) + " " + implUnquote(q)
 	case "U":
 		return implUnquote(common.Unhex(p[1]))
+	case "I":
+		return implIndentCase(p)
+	case "J":
+		return implRequoteCase(p)
 	case "D":
 		s := common.Unhex(p[1])
 		r, w := utf8.DecodeRuneInString(s)
@@ -556,6 +560,12 @@ func runLit(a map[string]string) {
 	for _, c := range fixedCases() {
 		emit(c)
 	}
+	ni := common.Atoi(a["--ni"], 0)
+	if ni > 0 {
+		for _, c := range fixedIndentCases() {
+			emit(c)
+		}
+	}
 	r := common.NewRng(seed)
 	// encoder cases; remember the produced literals as the valid decoder stream
 	rq := r.Fork()
@@ -622,6 +632,8 @@ func runLit(a map[string]string) {
 			emit("D " + common.Hex(s))
 		}
 	}
+	// IndentTabs (forked last: the streams above are unchanged)
+	genIndentCases(r.Fork(), ni, valid, emit)
 }
 
 // runUnq: cross-validation pass 2 -- the implementation's Unquote on literals
